@@ -30,6 +30,7 @@ class Engine(Interp, ExprMixin, StmtMixin, CallMixin, MethodMixin):
         self.cur_fs = None
         self.lemmas_used = set()
         self.revealed = set()
+        self.scoped = []
         self.pure_modules = {'builtins', 'operator', 're', 'os', 'posixpath', 'typing', 'itertools', 'functools', 'collections', 'enum', 'string'}
         self.init_specials()
 
@@ -62,6 +63,9 @@ class Engine(Interp, ExprMixin, StmtMixin, CallMixin, MethodMixin):
             for k, g in c.ghosts.items():
                 env[k] = self.zs.sym(g, k, res)
             fr.env = env
+            if c.yields is not None:
+                p.yields = VBox('list', z3.Empty(self.zs.zsort(api.Seq(c.yields))), c.yields)
+                fr.extra['__yield__'] = p.yields
             live = dict(env)
             entry = {k: self.snapshot(v) for k, v in env.items()}
             for k, v in entry.items():
@@ -72,8 +76,14 @@ class Engine(Interp, ExprMixin, StmtMixin, CallMixin, MethodMixin):
             fpre.extra = dict(names)
             for txt in list(c.requires) + list(c.assumes):
                 p.assume(self.ev_text(txt, fpre))
-            for lname, subst in c.uses:
-                p.assume(self.lemma_instance(lname, subst, fpre), heavy=True)
+            self.scoped = []
+            for use in c.uses:
+                lname, subst = use[0], use[1]
+                inst = self.lemma_instance(lname, subst, fpre)
+                if len(use) > 2:
+                    self.scoped.append((use[2], inst))      # only for obligations whose kind contains use[2]
+                else:
+                    p.assume(inst, heavy=True)
             outcome = None
             try:
                 try:
@@ -90,10 +100,17 @@ class Engine(Interp, ExprMixin, StmtMixin, CallMixin, MethodMixin):
             fpost = Frame(None, dict(entry), mod, None, c)
             fpost.extra = dict(names)
             fpost.extra['new'] = Builtin('new', lambda a, k, n, f: self._new(a, live, entry))
-            fpost.extra['__yield__'] = PyList(list(p.yields), 'gen')
+            fpost.extra['__yield__'] = p.yields if isinstance(p.yields, VBox) else PyList(list(p.yields), 'gen')
+            if c.then_call is not None and outcome[0] == 'return':
+                # the function returns a closure: call it on the ghost arguments (path mode) and expose result2
+                try:
+                    r2 = self.call(outcome[1], [env[g] for g in c.then_call], {}, fs.node, fr)
+                    fpost.extra['result2'] = r2
+                except PyRaise as ex:
+                    outcome = ('raise', ex)
             fpost.extra['__trace__'] = PyList(list(p.trace), 'gen')
             if outcome[0] == 'return':
-                fpost.extra['result'] = outcome[1]
+                fpost.extra['result'] = outcome[1] if c.yields is None else p.yields
                 for j, txt in enumerate(c.ensures):
                     self.oblige(f'post#{j}', self.ev_text(txt, fpost), fs.node, txt)
                 if c.exact_raises:
@@ -114,9 +131,35 @@ class Engine(Interp, ExprMixin, StmtMixin, CallMixin, MethodMixin):
                                 f'{ex.cls.__name__} escapes but is not listed under raises')
             return outcome[0] if outcome[0] == 'return' else f'raise {outcome[1].cls.__name__}'
 
-        results = explore(run)
+        import itertools
+        case_keys = list(c.cases)
+        combos = list(itertools.product(*[c.cases[k] for k in case_keys])) if case_keys else [()]
+        results = []
+        saved_params = dict(c.params)
+        try:
+            for combo in combos:
+                tag = ','.join(f'{k}={v!r}' for k, v in zip(case_keys, combo))
+                for k, v in zip(case_keys, combo):
+                    c.params[k] = api.Const(v)
+                for p_, r_ in explore(run):
+                    if tag:
+                        for o in p_.obligs:
+                            o.name = f'{o.name}[{tag}]'
+                    results.append((p_, r_))
+        finally:
+            c.params.clear()
+            c.params.update(saved_params)
         obls = []
         seen = set()
+        if case_keys:
+            # the case split must cover the precondition
+            p0 = Path([])
+            self.path = p0
+            fr0 = Frame(None, {k: self.zs.sym(S, k, self.resolver(Frame(fs, {}, mod))) for k, S in c.params.items()}, mod, None, c)
+            fr0.extra = dict(names)
+            pre = [self.ev_text(t, fr0) for t in c.requires]
+            alts = [self.land(*[fr0.env[k] == v for k, v in zip(case_keys, combo)]) for combo in combos]
+            obls.append(Obligation('cases-exhaustive', 'cases', [x for x in pre if x is not True], self.lor(*alts), fs.lines[0], '', f'requires imply one of the verified cases of {case_keys}'))
         for p, res in results:
             for o in p.obligs:
                 if o.name in seen:
@@ -136,7 +179,14 @@ class Engine(Interp, ExprMixin, StmtMixin, CallMixin, MethodMixin):
         lem = self.reg.lemmas[lname]
         self.lemmas_used.add(lname)
         env = {}
+        qvars = []
         for v, S in lem.vars.items():
+            if subst[v] == '*':
+                # universally quantified instance
+                qv = z3.Const(f'lq!{lname}!{v}', self.zs.zsort(S))
+                qvars.append(qv)
+                env[v] = self.wrap_sort(qv, S)
+                continue
             val = self.ev_text_value(subst[v], fr)
             if z3.is_expr(val) or not is_sym(val):
                 try:
@@ -148,7 +198,10 @@ class Engine(Interp, ExprMixin, StmtMixin, CallMixin, MethodMixin):
         f2.extra = dict(fr.extra)
         pre = [self.ev_text(t, f2) for t in lem.requires]
         goal = self.ev_text(lem.goal, f2)
-        return self.lor(self.lnot(self.land(*pre)), goal)
+        body = self.lor(self.lnot(self.land(*pre)), goal)
+        if qvars and not isinstance(body, bool):
+            return z3.ForAll(qvars, body)
+        return body
 
     def ev_text_value(self, txt, fr):
         node = ast.parse(txt.strip(), mode='eval').body
@@ -188,6 +241,10 @@ class Engine(Interp, ExprMixin, StmtMixin, CallMixin, MethodMixin):
         goal = self.ev_text(lem.goal, fr)
         obls = []
         pc = [x for x in pc if x is not True]
+        for hi, h in enumerate(lem.hints):
+            ht = self.ev_text(h, fr)
+            obls.append(Obligation(f'hint{hi}', 'lemma', list(pc), ht, 0, '', h))
+            pc.append(ht)
         if lem.cases:
             cs = [self.ev_text(t, fr) for t in lem.cases]
             for i, cse in enumerate(cs):
@@ -246,6 +303,8 @@ _RECAPP = re.compile(r'\(\(_ ([^\s()]+) \d+\)')
 def to_smt2(solver):
     s = solver.to_smt2()
     s = _RECAPP.sub(r'(\1', s)
+    # z3 stores recursive definitions simplified: seq.nth_i (in bounds) / seq.nth_u (out of bounds) are the two halves of seq.nth
+    s = s.replace('seq.nth_i', 'seq.nth').replace('seq.nth_u', 'seq.nth')
     return s
 
 
@@ -263,44 +322,56 @@ def run_cli(cmd, text, timeout_s):
         os.unlink(fn)
 
 
-def discharge(o: Obligation, second=False, want_model=True):
-    """-> dict(status=unsat|sat|unknown, backend, time_s, model)"""
-    t0 = time.time()
+def _z3api(o, timeout_ms):
     s = z3.Solver()
-    s.set('timeout', Z3_TIMEOUT_MS)
+    s.set('timeout', timeout_ms)
     for a in o.pc:
         s.add(a)
     s.add(z3.Not(o.goal))
-    r = s.check()
+    return s, s.check()
+
+
+Z3_FAST_MS = int(os.environ.get('PYVC_Z3_FAST_MS', '2500'))
+
+
+def discharge(o: Obligation, second=False, want_model=True):
+    """portfolio: z3 5.1 API (short) -> z3 4.8.12 CLI -> cvc5 CLI -> z3 5.1 API (long).
+    -> dict(status=unsat|sat|unknown, backend, time_s, model)"""
+    t0 = time.time()
+    s, r = _z3api(o, Z3_FAST_MS)
     rec = {'status': str(r), 'backend': 'z3-' + z3.get_version_string(), 'time_s': round(time.time() - t0, 4), 'model': None}
     if r == z3.sat:
         rec['model'] = s.model()
         return rec
     if r == z3.unsat and not second:
         return rec
-    if r == z3.unknown or second:
-        text = to_smt2(s)
+    text = '(set-logic ALL)\n' + to_smt2(s)
+    if second and r == z3.unsat:
         t1 = time.time()
         st = run_cli([CVC5, '--strings-exp', f'--tlimit={CVC5_TIMEOUT_MS}'], text, CVC5_TIMEOUT_MS / 1000)
-        if st in ('unsat', 'sat'):
-            if second and r == z3.unsat:
-                rec['second'] = {'backend': 'cvc5-1.0.3', 'status': st, 'time_s': round(time.time() - t1, 4)}
-                return rec
-            if st == 'unsat':
-                return {'status': 'unsat', 'backend': 'cvc5-1.0.3', 'time_s': round(time.time() - t0, 4), 'model': None}
-            rec['cvc5'] = 'sat'
-        if r == z3.unknown:
+        be = 'cvc5-1.0.3'
+        if st not in ('unsat', 'sat'):
             st = run_cli([Z3OLD, f'-T:{CVC5_TIMEOUT_MS // 1000}'], text, CVC5_TIMEOUT_MS / 1000)
-            if st == 'unsat':
-                return {'status': 'unsat', 'backend': 'z3-4.8.12', 'time_s': round(time.time() - t0, 4), 'model': None}
-            if st == 'sat':
-                rec['z3old'] = 'sat'
-        rec['time_s'] = round(time.time() - t0, 4)
-        rec['reason'] = s.reason_unknown() if r == z3.unknown else ''
+            be = 'z3-4.8.12'
+        rec['second'] = {'backend': be, 'status': st, 'time_s': round(time.time() - t1, 4)}
+        return rec
+    # unknown on the fast attempt
+    st = run_cli([Z3OLD, f'-T:{Z3_TIMEOUT_MS // 1000}'], text, Z3_TIMEOUT_MS / 1000)
+    if st == 'unsat':
+        return {'status': 'unsat', 'backend': 'z3-4.8.12', 'time_s': round(time.time() - t0, 4), 'model': None}
+    st2 = run_cli([CVC5, '--strings-exp', f'--tlimit={CVC5_TIMEOUT_MS}'], text, CVC5_TIMEOUT_MS / 1000)
+    if st2 == 'unsat':
+        return {'status': 'unsat', 'backend': 'cvc5-1.0.3', 'time_s': round(time.time() - t0, 4), 'model': None}
+    s, r = _z3api(o, 3 * Z3_TIMEOUT_MS)
+    rec = {'status': str(r), 'backend': 'z3-' + z3.get_version_string(), 'time_s': round(time.time() - t0, 4), 'model': None}
+    if r == z3.sat:
+        rec['model'] = s.model()
+    elif r == z3.unknown:
+        rec['reason'] = s.reason_unknown() + f' (z3-4.8.12: {st}, cvc5: {st2})'
     return rec
 
 
-def verify_contract(registry, c, second=False):
+def verify_contract(registry, c, second=False, shard=None):
     """generate + discharge; returns a JSON-able record"""
     t0 = time.time()
     eng = Engine(registry)
@@ -309,7 +380,7 @@ def verify_contract(registry, c, second=False):
     try:
         info = eng.gen(c)
     except Unsupported as ex:
-        rec['undecided'] = f'unsupported: {ex}'
+        rec['undecided'] = f'unsupported: {str(ex)[:300]}'
         rec['wall_s'] = round(time.time() - t0, 3)
         try:
             fs = src.find(c.file, c.qual)
@@ -327,7 +398,10 @@ def verify_contract(registry, c, second=False):
     # vacuity: the assumptions of the contract must be satisfiable and some path must end normally or exceptionally
     if not any(o is not None for o in info['outcomes']):
         rec['error'] = 'VACUOUS: no feasible path through the function under the stated requires'
-    for o in info['obligations']:
+    rec['n_generated'] = len(info['obligations'])
+    for oi, o in enumerate(info['obligations']):
+        if shard is not None and oi % shard[1] != shard[0]:
+            continue
         try:
             r = discharge(o, second)
         except z3.Z3Exception as ex:
